@@ -61,6 +61,8 @@ def parseOp (ws : List String) : Option Op :=
   | ["recover", id, seed, pw] => do pure (.recover id (← seed.toNat?) (← pw.toNat?))
   | ["unload", id] => some (.unload id)
   | ["update", id, l] => some (.update id (if l == "FAIL" then none else some l))
+  | ["seed", id, pw] => do pure (.getSeed id (← pw.toNat?))
+  | ["view", id, pw] => do pure (.view id (← pw.toNat?))
   | ["updsec", id, pw, l] => do pure (.updateSecrets id (← pw.toNat?) (if l == "FAIL" then none else some l))
   | _ => none
 
@@ -89,6 +91,8 @@ def propertyOK (d : D) (unl : List String) (impl : String) : Bool :=
   let mr := recs mem
   let dr := recs disk
   disk != "ERR"
+  -- serialised bytes (incl. the raw secrets blob) of memory = those of a freshly started service
+  && field "bytes=" iw == "ok"
   -- memory ⊆ disk (temporary wallets excepted), identical content
   && mr.all (fun (id, r) => isTemp r || dr.any (fun (id', r') => id' == id && noTemp r' == noTemp r))
   -- disk ⊆ memory ∪ unloaded
@@ -103,7 +107,13 @@ def dstep (d : D) (op impl : String) : D × String × Verdict :=
   let iw := impl.splitOn " "
   let remember (d' : D) : D := { d' with prevMem := field "mem=" iw, prevDisk := field "disk=" iw }
   match ws with
-  | ["reset", _] => (remember {}, "ok mem=- disk=-", .fail)
+  | ["reset", _] => (remember {}, "ok mem=- disk=- bytes=ok", .fail)
+  | ["get", id] =>
+      let e := if (d.st.mem.get id).isSome then "ok" else "err notExist"
+      let diskS := match loadAll d.st.disk with | some m => dumpM true m | none => "ERR"
+      let m := e ++ s!" mem={dumpM false d.st.mem} disk={diskS} bytes=ok"
+      if propertyOK d d.everUnloaded impl then (remember d, m, .unknown)
+      else (remember d, "memory and a freshly started service must agree; model: " ++ m, .fail)
   | _ =>
     match parseOp ws with
     | none => (d, "bad-op", .unknown)
@@ -113,7 +123,7 @@ def dstep (d : D) (op impl : String) : D × String × Verdict :=
         | .unload id => if (d.st.mem.get id).isSome then id :: d.everUnloaded else d.everUnloaded
         | _ => d.everUnloaded
       let diskS := match loadAll s'.disk with | some m => dumpM true m | none => "ERR"
-      let m := (match e with | none => "ok" | some x => "err " ++ errStr x) ++ s!" mem={dumpM false s'.mem} disk={diskS}"
+      let m := (match e with | none => "ok" | some x => "err " ++ errStr x) ++ s!" mem={dumpM false s'.mem} disk={diskS} bytes=ok"
       let d' := remember { d with st := s', everUnloaded := unl }
       -- a line on which the property fails is reported even when the model predicts the same line
       if propertyOK d unl impl then (d', m, .unknown)
